@@ -179,3 +179,171 @@ func impostorScenarios(t *testing.T, rep *kit.Report, env kit.Env, evals, nontri
 		}
 	}
 }
+
+// ---------------------------------------------------------------------------
+// Active attacks by a router M that holds its OWN valid identity.
+
+// secretReflection: M knows the universe name but not the secret. It copies the
+// victim's challenge into its own request and lifts the universe proof from the
+// victim's response into its own response.
+func secretReflection(t *testing.T, rep *kit.Report, evals, nontrivial *int64) {
+	att := pool[2]
+	for _, lift := range []bool{false, true} {
+		for _, copyChallenge := range []bool{false, true} {
+			synctest.Test(t, func(t *testing.T) {
+				r := mkNode("R", 0, "u", "s")
+				helper := mkNode("X", 2, "u", "")
+				b := helper.FrameBuilder()
+				ep := kit.NewEndpoint("attacker")
+				var pv any
+				done := false
+				go func() {
+					_, v := kit.Try(func() { _, _ = r.Peering().VerifSetupLink(ep, nil, false) })
+					pv = v
+					done = true
+				}()
+				synctest.Wait()
+				out := ep.Take()
+				var rreq preq
+				if err := cbor.Unmarshal(msgOf(out[0]), &rreq); err != nil {
+					panic(err)
+				}
+				now := time.Now().Round(time.Millisecond)
+				ch := make([]byte, 32)
+				ch[0] = 7
+				if copyChallenge {
+					ch = rreq.Challenge
+				}
+				req := preq{RouterVersion: "v", Universe: "u", Address: att.PublicAddress, Challenge: ch, LinkVersion: 1}
+				ep.Feed(wireFrame(b, att.PublicAddress, r.Identity().PublicAddress, true, kit.MustCBOR(&req), att.PrivateKey, now.Add(-time.Millisecond)))
+				synctest.Wait()
+				out = ep.Take()
+				if !done && len(out) > 0 {
+					var rresp presp
+					_ = cbor.Unmarshal(msgOf(out[0]), &rresp)
+					kx, _ := ecdh.X25519().GenerateKey(rand.Reader)
+					resp := presp{Challenge: rreq.Challenge, KeyExchange: kx.PublicKey().Bytes(), KeyExchangeType: "ECDH-X25519/BLAKE3"}
+					if lift {
+						resp.UniverseAuth = rresp.UniverseAuth
+					}
+					ep.Feed(wireFrame(b, att.PublicAddress, r.Identity().PublicAddress, false, kit.MustCBOR(&resp), att.PrivateKey, now.Add(time.Millisecond)))
+					synctest.Wait()
+					out = ep.Take()
+					if !done && len(out) > 0 {
+						ep.Feed(wireFrame(b, att.PublicAddress, r.Identity().PublicAddress, false, kit.MustCBOR(&pack{Ack: true}), att.PrivateKey, now.Add(2*time.Millisecond)))
+						synctest.Wait()
+					}
+				}
+				*evals++
+				*nontrivial++
+				desc := fmt.Sprintf("attacker without the universe secret: challenge copied from victim=%v, universe proof lifted from victim's response=%v", copyChallenge, lift)
+				if pv != nil {
+					rep.Violate("secret-reflection/panic", fmt.Sprintf("setup panicked: %v; %s", pv, desc), desc)
+				}
+				if r.Peering().LinkCnt() > 0 {
+					rep.Violate("secret-reflection/link-registered", "a router that does not know the universe secret got a link registered at a router that requires it: "+desc, desc)
+					rep.Outcome("secret-reflection/registered!")
+				} else {
+					rep.Outcome("secret-reflection/refused")
+				}
+				for _, l := range r.Peering().GetLinks() {
+					l.Close(nil)
+				}
+				ep.FeedEOF()
+				synctest.Wait()
+				_ = r.Peering().Stop()
+				synctest.Wait()
+			})
+		}
+	}
+}
+
+// proofRelay: victim A dials what it believes is P; the attacker M (own identity)
+// sits on that connection and at the same time peers with the real P under its
+// own identity, using A's challenge as its own, and passes P's signed messages
+// on to A. A must never register a link for P over this connection.
+func proofRelay(t *testing.T, rep *kit.Report, evals, nontrivial *int64) {
+	att := pool[2]
+	for _, universe := range []string{"", "u"} {
+		synctest.Test(t, func(t *testing.T) {
+			a := mkNode("A", 0, universe, "")
+			p := mkNode("P", 1, universe, "")
+			helper := mkNode("X", 2, universe, "")
+			b := helper.FrameBuilder()
+			epA, epP := kit.NewEndpoint("A-conn"), kit.NewEndpoint("P-conn")
+			var pa, pp any
+			var errA error
+			continued := false
+			go func() { _, v := kit.Try(func() { _, errA = a.Peering().VerifSetupLink(epA, nil, true) }); pa = v }()
+			go func() { _, v := kit.Try(func() { _, _ = p.Peering().VerifSetupLink(epP, nil, false) }); pp = v }()
+			synctest.Wait()
+			oa, op := epA.Take(), epP.Take()
+			if len(oa) == 0 || len(op) == 0 {
+				panic("harness: no requests")
+			}
+			var reqA, reqP preq
+			_ = cbor.Unmarshal(msgOf(oa[0]), &reqA)
+			_ = cbor.Unmarshal(msgOf(op[0]), &reqP)
+			now := time.Now().Round(time.Millisecond)
+			// M -> P: own request with A's challenge. M -> A: P's request, untouched.
+			reqM := preq{RouterVersion: "v", Universe: universe, Address: att.PublicAddress, Challenge: reqA.Challenge, LinkVersion: 1}
+			epP.Feed(wireFrame(b, att.PublicAddress, p.Identity().PublicAddress, true, kit.MustCBOR(&reqM), att.PrivateKey, now.Add(-time.Millisecond)))
+			epA.Feed(op[0])
+			synctest.Wait()
+			oa, op = epA.Take(), epP.Take()
+			if len(oa) > 0 && len(op) > 0 {
+				var respA presp
+				_ = cbor.Unmarshal(msgOf(oa[0]), &respA)
+				// M -> A: P's response (addressed to M). M -> P: own response carrying A's key-exchange key.
+				epA.Feed(op[0])
+				respM := presp{Challenge: reqP.Challenge, KeyExchange: respA.KeyExchange, KeyExchangeType: respA.KeyExchangeType}
+				epP.Feed(wireFrame(b, att.PublicAddress, p.Identity().PublicAddress, false, kit.MustCBOR(&respM), att.PrivateKey, now.Add(time.Millisecond)))
+				synctest.Wait()
+				oa, op = epA.Take(), epP.Take()
+				// the victim must abort on a response that P addressed to another router;
+				// continuing (sending its ack) means the destination binding is gone.
+				if len(oa) > 0 {
+					var ackA pack
+					if err := cbor.Unmarshal(msgOf(oa[0]), &ackA); err == nil && ackA.Err == "" && len(ackA.KeyExchange) == 0 && ackA.Ack || (err == nil && ackA.Err == "" && len(msgOf(oa[0])) < 8) {
+						continued = true
+					}
+					var maybeErr presp
+					if err := cbor.Unmarshal(msgOf(oa[0]), &maybeErr); err == nil && maybeErr.Err == "" {
+						continued = true
+					}
+				}
+				if len(op) > 0 {
+					epA.Feed(op[0]) // P's ack (addressed to M)
+				}
+				epP.Feed(wireFrame(b, att.PublicAddress, p.Identity().PublicAddress, false, kit.MustCBOR(&pack{Ack: true}), att.PrivateKey, now.Add(2*time.Millisecond)))
+				synctest.Wait()
+			}
+			*evals++
+			*nontrivial++
+			desc := fmt.Sprintf("three-party relay of P's key-possession proof through attacker M (universe %q)", universe)
+			if pa != nil || pp != nil {
+				rep.Violate("proof-relay/panic", fmt.Sprintf("setup panicked: %v / %v; %s", pa, pp, desc), desc)
+			}
+			if continued {
+				rep.Violate("proof-relay/continued-after-foreign-response", "the victim continued the handshake after a response that P had addressed to a different router (the attacker): "+desc, desc)
+			}
+			if a.Peering().GetLink(p.Identity().IP) != nil || a.Peering().LinkCnt() > 0 {
+				rep.Violate("proof-relay/link-registered", "the victim registered a link for P over a connection whose remote end is the attacker: "+desc, desc)
+				rep.Outcome("proof-relay/registered!")
+			} else {
+				rep.Outcome(fmt.Sprintf("proof-relay/refused (%v)", errA))
+			}
+			for _, n := range []*kit.Node{a, p} {
+				for _, l := range n.Peering().GetLinks() {
+					l.Close(nil)
+				}
+			}
+			epA.FeedEOF()
+			epP.FeedEOF()
+			synctest.Wait()
+			_ = a.Peering().Stop()
+			_ = p.Peering().Stop()
+			synctest.Wait()
+		})
+	}
+}
